@@ -64,6 +64,17 @@ std::vector<Bytes> norm_segs(std::vector<Bytes> s) {
   return s;
 }
 
+void hnd_deferred(coap_resource_t *, coap_session_t *session, const coap_pdu_t *request, const coap_string_t *, coap_pdu_t *response) {
+  coap_bin_const_t t = coap_pdu_get_token(request);
+  if (!coap_find_async(session, t)) {
+    if (coap_register_async(session, request, 2 * COAP_TICKS_PER_SECOND)) { g->w.count("probe.async_registered"); return; }
+    coap_pdu_set_code(response, COAP_RESPONSE_CODE_SERVICE_UNAVAILABLE);
+    return;
+  }
+  coap_pdu_set_code(response, COAP_RESPONSE_CODE_CONTENT);
+  coap_add_data(response, 4, (const uint8_t *)"late");
+}
+
 void hnd(coap_resource_t *resource, coap_session_t *, const coap_pdu_t *request, const coap_string_t *query, coap_pdu_t *response) {
   HCall c;
   c.res_id = (int)(intptr_t)coap_resource_get_userdata(resource);
@@ -309,7 +320,17 @@ struct C10 : Property {
     p["table"] = table;
     json ops = json::array();
     int n = (int)r.range(10, 60);
-    for (int i = 0; i < n; i++) ops.push_back(gen_request(r, paths, i, mcast));
+    for (int i = 0; i < n; i++) {
+      json rq = gen_request(r, paths, i, mcast);
+      if (r.chance(0.06)) {
+        // a request to a resource whose handler defers its answer (coap_register_async): only the message-type rules are judged
+        // (Empty ACK for a Confirmable, never an ACK for a Non-confirmable - also not for a copy that arrives while the answer is pending)
+        Bytes tok = {0xA5, 0x5A, (uint8_t)(i >> 8), (uint8_t)i};
+        rq = json{{"type", r.chance(0.5) ? 0 : 1}, {"code", 1}, {"mid", (0x1000 + i * 7) & 0xffff}, {"token", hex(tok)}, {"opts", json::array({json::array({11, hex(Bytes{'z', 'z', '-', 'a', 's', 'y', 'n', 'c'})})})},
+                  {"payload", ""}, {"peer", r.below(3)}, {"dup", r.chance(0.5) ? 1 : 0}, {"mcast", false}, {"async", true}};
+      }
+      ops.push_back(rq);
+    }
     p["ops"] = ops;
     p["faults"] = json::array();
     return p;
@@ -344,6 +365,11 @@ struct C10 : Property {
         for (int m = 1; m <= 7; m++) if (rs.methods & (1 << (m - 1))) coap_register_request_handler(rs.r, (coap_request_t)m, hnd);
         coap_add_resource(cw.ctx, rs.r);
         cw.table.push_back(rs);
+      }
+      {
+        coap_resource_t *ra = coap_resource_init(coap_make_str_const("zz-async"), 0);
+        coap_register_request_handler(ra, COAP_REQUEST_GET, hnd_deferred);
+        coap_add_resource(cw.ctx, ra);
       }
       cw.unknown_methods = cfg.value("unknown_methods", 0);
       if (cw.unknown_methods) {
@@ -383,7 +409,7 @@ struct C10 : Property {
         }
       }
     });
-    struct Sent { r1::Msg m; bool mcast; int copies; uint64_t t; };
+    struct Sent { r1::Msg m; bool mcast; int copies; uint64_t t; bool async = false; };
     std::vector<Sent> sent;
     uint64_t t = w.now();
     for (auto &op : plan["ops"]) {
@@ -396,6 +422,7 @@ struct C10 : Property {
       s.m.payload = unhex(op.value("payload", ""));
       s.mcast = op.value("mcast", false) && joined;
       s.copies = 1 + op.value("dup", 0);
+      s.async = op.value("async", false);
       t += 8000ull * 1000000ull;     // requests 8 s apart: every reply (incl. multicast leisure) is attributable
       s.t = t;
       int fd = peer_fd[op.value("peer", 0) % 3];
@@ -414,6 +441,28 @@ struct C10 : Property {
     bool nontrivial = false;
     for (size_t i = 0; i < sent.size() && !w.aborted; i++) {
       const Sent &s = sent[i];
+      if (s.async) {
+        // deferred answer: message-type rules only
+        w.count("probe.async_requests_judged", (uint64_t)s.copies);
+        std::string actx = strfmt("request #%zu %s x%d [deferred answer]", i, s.m.str().c_str(), s.copies);
+        int acks = 0, separate = 0;
+        for (auto &rp : replies) {
+          const r1::Msg &a = rp.m;
+          if (a.code == 0 && a.mid == s.m.mid && (a.type == 2 || a.type == 3)) {
+            if (s.m.type == 1) res.violate("R6.ack_for_non", a.type == 2 ? "ack_for_non,deferred_answer" : "rst_for_non,deferred_answer", actx + ": the server answered a Non-confirmable request with " + a.str());
+            else if (a.type == 2) acks++;
+            else res.violate("R6.con_not_acknowledged", "rst_for_con,deferred_answer", actx + ": Reset for a well-formed Confirmable request");
+          } else if (a.code != 0 && a.token == s.m.token) {
+            separate++;
+            if (a.type == 2) res.violate("R6.wrong_reply", "piggybacked_after_deferral", actx + ": " + a.str());
+            if (a.code != 0x45) res.violate("R6.wrong_reply", "deferred_answer_code", actx + ": the deferred answer is " + a.str());
+          }
+        }
+        if (s.m.type == 0 && acks < 1) res.violate("R6.con_not_acknowledged", "con_not_acknowledged,deferred_answer", actx + ": no Empty ACK for the Confirmable request");
+        if (acks > s.copies) res.violate("R6.more_than_one_reply", "more_than_one_ack,deferred_answer", actx + strfmt(": %d Empty ACKs for %d datagram(s)", acks, s.copies));
+        if (separate < 1) res.violate("R6.no_reply", "deferred_answer_missing", actx + ": the deferred answer never came");
+        continue;
+      }
       Expect e = decide(s.m, s.mcast);
       w.count("probe.requests_judged", (uint64_t)s.copies);
       if (e.not_judged) { w.count("probe.not_judged"); continue; }
